@@ -4,6 +4,7 @@ from core import (enum_paths, path_atoms, path_calls, path_return, ret_variant, 
 from statsmodel import StatsModel
 
 from sym import ipaths
+from core import reaches_call
 
 LEVEL = "proof"
 EXPLANATION = ("Counting rules on all MIR paths: a read API records exactly one access iff it returns a value; the "
@@ -327,23 +328,6 @@ def run(ctx):
                       "%s|read-never-waits" % f.name,
                       "a read API reaches no blocking channel/thread operation and never takes the sketch lock", f.where(),
                       "block=%s acquire=%s nonblock=%s" % (sorted(e["block"]), sorted(e["acquire"]), sorted(e["nonblock"])))
-
-
-def reaches_call(F, f, sub, depth, _memo={}):
-    """f (or a local function it calls, `depth` levels down) contains a call whose callee mentions `sub`"""
-    key = (id(F), f.name, sub, depth)
-    if key in _memo:
-        return _memo[key]
-    _memo[key] = False
-    r = bool(f.calls_to(sub))
-    if not r and depth > 0:
-        for b, t in f.calls():
-            g = F.fns.get(t.get("rpath") or "")
-            if t["res"] == "item" and g is not None and g is not f and reaches_call(F, g, sub, depth - 1):
-                r = True
-                break
-    _memo[key] = r
-    return r
 
 
 def records_directly(F, f, bb, read_names):
